@@ -70,6 +70,7 @@ type interpreter struct {
 	summ        *summCtx
 	pathReach   map[string]int
 	inInit      bool
+	tainted     bool
 	summOK      map[*ssa.Function]bool
 	panicStack  []string
 	frozenNames []string
